@@ -22,7 +22,9 @@ LEVEL_NOTE = "Native replay uses the same harness with the real Huffman layer di
 def queries(tier):
     qs = [Query("offset_modifiers", "C04_lzh.cpp", "h_offset_modifiers", {}, unwind=70, desc="GetOffsetModifiers for all 256 prefixes equals the LZHUF position table; 9..14 bits per position, upper part < 64"),
           Query("bitreader_step", "C04_lzh.cpp", "h_bitreader_step", {}, unwind=12, desc="ReadNextBit / ReadNext8Bits from an arbitrary valid BitStreamReader state over <= 4 symbolic bytes: MSB-first bits, zeros past the end, no read outside the buffer")]
-    # NOT RUN (kept in harness/C04_lzh.cpp: h_decompress_code, h_decode): every query that puts the 4 KiB window of the real HuffLZ object
+    qs.append(Query("repeat_offset", "C04_lzh.cpp", "h_repeat_offset", {}, unwind=30, timeout=600, redirects={TREECTOR: "stub_TreeCtor"},
+                    desc="HuffLZ::GetRepeatOffset on the real decoder object at every bit alignment 0..7 over 3 symbolic input bytes: equals the format's position code, < 4096, consumes 9..14 bits (only the Huffman tree constructor is stubbed)"))
+    # NOT RUN (kept in harness/C04_lzh.cpp: h_decompress_code, h_decode, h_copy_available): every query that puts the 4 KiB window of the real HuffLZ object
     # under symbolic execution exceeded the budget - DecompressCode from an arbitrary window: symex 130 s, 242 k steps, SAT not finished
     # after 30 min at 8 GB (also with a concrete patterned window, concrete write index, field sensitivity 64 and 8192); whole decoder over
     # 1 input byte with the Huffman layer stubbed: no verdict in 30 min.  These parts of the property are outside the claim.
